@@ -356,13 +356,6 @@ func m_VerifyASN1(pub *ecdsa.PublicKey, hash, sig []byte) bool {
 	return vp.UFBool("ECDSA_P256", bigBytes(pub.X), bigBytes(pub.Y), hash, r, s)
 }
 
-//vp:model crypto/sha256.Sum256
-func m_Sum256(data []byte) [32]byte {
-	var out [32]byte
-	copy(out[:], vp.UFBytes("SHA256", 32, data))
-	return out
-}
-
 type intList struct{ v [][]byte }
 
 // cryptobyte.Builder as used by abi.SignatureToDER: SEQUENCE { INTEGER, INTEGER }.
